@@ -1189,6 +1189,7 @@ class Layout:
     amp_tight: bool = False  # with lead_amp: the text follows the leading '&' directly ('&name' instead of '& name')
     cont_col1: bool = False  # without lead_amp: the continuation line starts in column 1
     cont_blank: str = None  # a line of this text ("" or blanks only) between the lines of a continued statement
+    fixed_zero6: bool = False  # fixed form: every third initial line carries a zero in column 6 (same as a blank)
     fixed_tight: bool = False  # fixed form: break between two words, no blank before the break nor after the continuation mark
     join_every: int = 0  # join every n-th pair of simple statements with ';'
     space_end: str = " "  # 'end subroutine' vs 'endsubroutine' (only for constructs that allow it)
@@ -1220,6 +1221,7 @@ layout_st = st.builds(
     cont_col1=st.booleans(),
     cont_blank=st.sampled_from([None, None, "", "   ", " "]),
     fixed_tight=st.booleans(),
+    fixed_zero6=st.booleans(),
     join_every=st.sampled_from([0, 0, 2, 3]),
     space_end=st.sampled_from([" ", " ", "  "]),
     end_style=st.sampled_from(["full", "full", "kw", "bare", "joined"]),
@@ -1350,7 +1352,7 @@ def render_fixed(prog: Program, layout: Layout) -> Rendered:
                 else:
                     pieces.append((_case_kw(t, layout), None))
             ind = " " * min(layout.indent * s.depth, 12)
-            cur = f"{label:>5} " if label else "      "
+            cur = f"{label:>5} " if label else ("     0" if layout.fixed_zero6 and nst % 3 == 0 else "      ")
             cur += ind
             first_line = len(lines)
             was_split = False
@@ -1363,7 +1365,13 @@ def render_fixed(prog: Program, layout: Layout) -> Rendered:
                     cur = "     " + layout.cont_char
                     was_split = True
                 elif len(cur) + len(txt) > (66 if not layout.split_every else 30 + 8 * layout.split_every) and len(cur) > 12 + len(ind):
+                    # a trailing comment on a line that is continued, a comment line between the lines of a statement
+                    if layout.trailing_comments and nst % 2 == 0 and len(cur) < 56 and "'" not in cur and '"' not in cur:
+                        cur += " ! goes on"
                     lines.append(cur)
+                    if layout.comment_every and nst % 3 == 0:
+                        fl = flags[nst % len(flags)] if layout.comment_flag == "mixed" else layout.comment_flag
+                        lines.append(f"{fl} comment inside a statement, & call end")
                     cur = "     " + layout.cont_char + ind + "  "
                     was_split = True
                 if ref is not None:
